@@ -142,7 +142,22 @@ ModelVerdict == IF R.kind = "skip" THEN "ok"
                 ELSE IF WellFormedCore(mg) # "ok" THEN "MODEL: " \o WellFormedCore(mg)
                 ELSE IF ~DepthOK(Tree, mg) THEN "MODEL: loop depth differs from the nesting of the source"
                 ELSE "ok"
-DriftVerdict == IF R.kind = "skip" \/ SameShape(mg, G) THEN "ok" ELSE "DRIFT: the exported graph is not the graph Lifting.tla builds"
+\* Impl model of phi placement (static_single_assignment/mod.rs insert_phi_statements): a work list over the blocks, a phi
+\* for every variable written in a block at every block of its dominance frontier, blocks that received a phi re-queued:
+\* the phi blocks of a variable are the ITERATED dominance frontier of the blocks assigning it (recorded dominators are
+\* used; they are checked against path-based dominance by WellFormed)
+Dom(g, a, b) == a \in SeqSet(g.blocks[b].dom)
+DF(g, x) == {y \in 1..NB(g) : (\E p \in SeqSet(g.blocks[y].preds) : Dom(g, x, p)) /\ ~(x # y /\ Dom(g, x, y))}
+Writes(g, v) == {b \in 1..NB(g) : \E i \in 1..Len(g.blocks[b].stmts) : g.blocks[b].stmts[i].w = v /\ ~g.blocks[b].stmts[i].phi}
+RECURSIVE IDF(_, _, _)
+IDF(g, base, acc) == LET nxt == UNION {DF(g, x) : x \in base \cup acc} IN
+                     IF nxt \subseteq acc THEN acc ELSE IDF(g, base, acc \cup nxt)
+PhiBlocks(g, v) == {b \in 1..NB(g) : \E i \in 1..Len(g.blocks[b].stmts) : g.blocks[b].stmts[i].phi /\ g.blocks[b].stmts[i].w = v}
+PhiAsModel == \A v \in SeqSet(S.vars) : PhiBlocks(S, v) = IDF(G, Writes(G, v), {})
+DriftVerdict == IF R.kind = "skip" THEN "ok"
+                ELSE IF ~SameShape(mg, G) THEN "DRIFT: the exported graph is not the graph Lifting.tla builds"
+                ELSE IF ~PhiAsModel THEN "DRIFT: phi statements are not placed at the iterated dominance frontier of the assignments"
+                ELSE "ok"
 
 (* --------------------- C13: source executor (Ref) ---------------------- *)
 \* frames: [f |-> "node", n] | [f |-> "forloop", n] | [f |-> "forstep", n]
